@@ -3,7 +3,7 @@
    produced (duplex outputs recorded by a shadow Cyclist, DH/KEM/policy/cookie results) and
    what the real code did; the checker runs the Gallina model on the same input with those
    oracle values and compares. *)
-From Hop Require Import Base Handshake HsServer.
+From Hop Require Import Base Keccak Cyclist Handshake HsServer HsConcrete.
 Open Scope N_scope.
 
 Record env := Env {
@@ -267,3 +267,113 @@ Definition hs_seq_ok (c : bool * N * option (list hcert) * list sstep) : bool :=
 Definition hs_seq_ok_1 := hs_seq_ok. Definition hs_seq_ok_2 := hs_seq_ok. Definition hs_seq_ok_3 := hs_seq_ok.
 Definition hs_seq_ok_4 := hs_seq_ok. Definition hs_seq_ok_5 := hs_seq_ok. Definition hs_seq_ok_6 := hs_seq_ok.
 Definition hs_seq_ok_7 := hs_seq_ok.
+
+(* ------------------------------------------------------------------ byte-exact handshakes *)
+(* No duplex oracle: the duplex is the executable Cyclist over Keccak-p[1600,12] (Model/Cyclist.v,
+   Model/HsConcrete.v). The case supplies only what is outside the model — KEM key / ciphertext /
+   secret, the cookie, X25519 public keys and DH results, session id, server name, certificates,
+   policy verdicts — and the checker recomputes every MAC, every encrypted field and both final keys,
+   and must reproduce the real datagrams, the real keys and the real duplex states byte for byte. *)
+Definition fp8 (T : tr) : bytes :=
+  match cy_of keccak12 T with Ok c => fst (cy_squeeze keccak12 c 8%nat) | _ => [] end.
+
+(* tampered messages read from the honest state: (which message: 4 = ServerAuth, 5 = ClientAuth;
+   message; expected outcome code; expected fingerprint of the reader's duplex afterwards) *)
+Definition xtamper := (N * bytes * N * bytes)%type.
+
+Record xdisc := XD {
+  xd_kpub : bytes; xd_ct : bytes; xd_k : bytes; xd_cookie : bytes; xd_epub_c : bytes; xd_epub_s : bytes;
+  xd_sid : bytes; xd_sni : bytes; xd_cleaf : bytes; xd_cinter : bytes; xd_sleaf : bytes; xd_sinter : bytes;
+  xd_ip : bytes; xd_port : N;
+  xd_msgs : list bytes;          (* the real ClientHello, ServerHello, ClientAck, ServerAuth, ClientAuth *)
+  xd_c2s : bytes; xd_s2c : bytes;  (* the keys both real endpoints hold *)
+  xd_fps : list bytes;           (* real duplex fingerprints: client after writing ClientAuth, server's stored state after writing ServerAuth *)
+  xd_tampers : list xtamper }.
+
+Definition nthb (l : list bytes) (i : nat) : bytes := nth i l [].
+
+(* key ids as in harness/hsx/readers.go: 1 client ephemeral, 2 client static, 3 server ephemeral,
+   5 client KEM, 7 cookie key, 10 client policy, 11 server policy, 20 server static *)
+Definition hs_exact_ok (c : env * xdisc) : bool :=
+  let '(e, x) := c in
+  let O := hopO in let X := mkX e in
+  let '(mch, Tch) := write_client_hello O (tr_start PQName) (xd_kpub x) in
+  let '(msh, Tsh) := write_server_hello O Tch (xd_ct x) (xd_k x) (xd_cookie x) in
+  let T1 := rekey O Tsh PQName in
+  let '(mack, Tack) := write_client_ack O T1 (xd_epub_c x) (xd_kpub x) (xd_cookie x) (xd_sni x) in
+  match write_server_auth O X Tack (xd_sid x) (xd_epub_s x) 3 20 (xd_epub_c x) (xd_sleaf x) (xd_sinter x) with
+  | (Tsa, Ok msa) =>
+    match write_client_auth O X Tsa (xd_sid x) 2 (xd_epub_s x) (xd_cleaf x) (xd_cinter x) with
+    | (Tca, Ok mca) =>
+      let '(k1, k2, _) := derive_final_keys O Tca in
+      (* the writers reproduce the real datagrams *)
+      beq_bytes mch (nthb (xd_msgs x) 0) && beq_bytes msh (nthb (xd_msgs x) 1) &&
+      beq_bytes mack (nthb (xd_msgs x) 2) && beq_bytes msa (nthb (xd_msgs x) 3) &&
+      beq_bytes mca (nthb (xd_msgs x) 4) &&
+      (* the keys are the ones both real endpoints hold *)
+      beq_bytes k1 (xd_c2s x) && beq_bytes k2 (xd_s2c x) &&
+      (* the model's Cyclist object is in the state of the real ones *)
+      beq_bytes (fp8 Tca) (nthb (xd_fps x) 0) && beq_bytes (fp8 Tsa) (nthb (xd_fps x) 1) &&
+      (* the byte-exact readers accept the real datagrams and end in the writers' transcripts *)
+      (match read_client_hello O X (tr_start PQName) (nthb (xd_msgs x) 0) with
+       | (T, Ok (n, kc)) => (n =? len mch) && beq_bytes (fp8 T) (fp8 Tch) | _ => false end) &&
+      (match read_server_hello O X 5 Tch (nthb (xd_msgs x) 1) with
+       | (T, Ok (n, ck)) => (n =? len msh) && beq_bytes ck (xd_cookie x) && beq_bytes (fp8 T) (fp8 Tsh) | _ => false end) &&
+      (match read_client_ack O X 7 (xd_ip x) (xd_port x) (nthb (xd_msgs x) 2) with
+       | Ok (n, a) => (n =? len mack) && beq_bytes (fp8 (ak_tr a)) (fp8 Tack) | _ => false end) &&
+      (match read_server_auth O X 1 10 Tack (nthb (xd_msgs x) 3) with
+       | (T, Ok r) => (sa_n r =? len msa) && beq_bytes (sa_sid r) (xd_sid x) && beq_bytes (fp8 T) (fp8 Tsa) | _ => false end) &&
+      (match read_client_auth O X 3 11 (xd_sid x) Tsa (nthb (xd_msgs x) 4) with
+       | (T, Ok (n, _)) => (n =? len mca) && beq_bytes (fp8 T) (fp8 Tca) | _ => false end) &&
+      (* tampered messages: same decision, and the same duplex state afterwards, as the real reader *)
+      forallb (fun t : xtamper =>
+        let '(which, m, code, fp) := t in
+        if which =? 4 then
+          let '(T, r) := read_server_auth O X 1 10 Tack m in (res_code r =? code) && beq_bytes (fp8 T) fp
+        else
+          let '(T, r) := read_client_auth O X 3 11 (xd_sid x) Tsa m in (res_code r =? code) && beq_bytes (fp8 T) fp)
+        (xd_tampers x)
+    | _ => false
+    end
+  | _ => false
+  end.
+
+Record xhid := XH {
+  xh_kpub : bytes; xh_ct : bytes; xh_k : bytes; xh_ts : bytes; xh_now : N; xh_sid : bytes; xh_ect : bytes; xh_ek : bytes;
+  xh_cpk : bytes; xh_cleaf : bytes; xh_cinter : bytes; xh_sleaf : bytes; xh_sinter : bytes;
+  xh_msgs : list bytes;          (* the real request and response *)
+  xh_c2s : bytes; xh_s2c : bytes;
+  xh_fps : list bytes;           (* client duplex after reading the response *)
+  xh_tampers : list xtamper }.   (* which = 9: tampered responses read by the client *)
+
+Definition hs_exact_hidden_ok (c : env * xhid) : bool :=
+  let '(e, x) := c in
+  let O := hopO in let X := mkX e in
+  match write_request_hidden O (tr_start_hidden O) (xh_kpub x) (xh_ct x) (xh_k x) (xh_cleaf x) (xh_cinter x) (xh_ts x) with
+  | (Treq, Ok mreq) =>
+    match write_response_hidden O X Treq (xh_sid x) (xh_ect x) (xh_ek x) 20 (xh_cpk x) (xh_sleaf x) (xh_sinter x) with
+    | (Tresp, Ok mresp) =>
+      let '(k1, k2, _) := derive_final_keys O Tresp in
+      beq_bytes mreq (nthb (xh_msgs x) 0) && beq_bytes mresp (nthb (xh_msgs x) 1) &&
+      beq_bytes k1 (xh_c2s x) && beq_bytes k2 (xh_s2c x) &&
+      beq_bytes (fp8 Tresp) (nthb (xh_fps x) 0) &&
+      (match read_request_hidden O X (Some [HC (Some 30) true 0]) 11 (xh_now x) [] (nthb (xh_msgs x) 0) with
+       | (T, Ok q) => (hq_n q =? len mreq) && beq_bytes (fp8 T) (fp8 Treq) | _ => false end) &&
+      (match read_response_hidden O X 5 2 10 Treq (nthb (xh_msgs x) 1) with
+       | (T, Ok r) => (sa_n r =? len mresp) && beq_bytes (sa_sid r) (xh_sid x) && beq_bytes (fp8 T) (fp8 Tresp) | _ => false end) &&
+      forallb (fun t : xtamper =>
+        let '(which, m, code, fp) := t in
+        let '(T, r) := read_response_hidden O X 5 2 10 Treq m in (res_code r =? code) && beq_bytes (fp8 T) fp)
+        (xh_tampers x)
+    | _ => false
+    end
+  | _ => false
+  end.
+
+Definition hs_exact_ok_1 := hs_exact_ok. Definition hs_exact_ok_2 := hs_exact_ok. Definition hs_exact_ok_3 := hs_exact_ok.
+Definition hs_exact_ok_4 := hs_exact_ok. Definition hs_exact_ok_5 := hs_exact_ok. Definition hs_exact_ok_6 := hs_exact_ok.
+Definition hs_exact_ok_7 := hs_exact_ok.
+Definition hs_exact_hidden_ok_1 := hs_exact_hidden_ok. Definition hs_exact_hidden_ok_2 := hs_exact_hidden_ok.
+Definition hs_exact_hidden_ok_3 := hs_exact_hidden_ok. Definition hs_exact_hidden_ok_4 := hs_exact_hidden_ok.
+Definition hs_exact_hidden_ok_5 := hs_exact_hidden_ok. Definition hs_exact_hidden_ok_6 := hs_exact_hidden_ok.
+Definition hs_exact_hidden_ok_7 := hs_exact_hidden_ok.
